@@ -266,6 +266,12 @@ def isValidN (n : Name) : Bool :=
   (n.tag.isEmpty || validPartN .tag n.tag) &&
   (!n.model.isEmpty && validPartN .model n.model)
 
+/-- `names.Name.IsValid` with the variant flag for finding N1: `fixed = false` is the pinned upstream
+    behaviour (`isValidN`); `fixed = true` is the behaviour after proposed_fixes/C13-N1.patch (a host
+    without a namespace is invalid).  `IsFullyQualified` is the same under both. -/
+def isValidNv (fixed : Bool) (n : Name) : Bool :=
+  isValidN n && !(fixed && !n.host.isEmpty && n.ns.isEmpty)
+
 /-- `names.Name.IsFullyQualified` -/
 def isFQN (n : Name) : Bool :=
   isValidN n && !n.host.isEmpty && !n.ns.isEmpty && !n.model.isEmpty && !n.tag.isEmpty
